@@ -4,6 +4,7 @@ import (
 	"context"
 	"encoding/json"
 	"fmt"
+	apierrors "k8s.io/apimachinery/pkg/api/errors"
 	"math"
 	"math/rand"
 	"reflect"
@@ -381,6 +382,10 @@ func runC19(ctx *Ctx) *Result {
 			add(i, "hijack-get-failed", err.Error(), nil)
 			continue
 		}
+		if created == nil || got == nil {
+			add(i, "nil-object-without-error", fmt.Sprintf("a successful call through the hijack client returned no object (Create: nil=%v, Get: nil=%v)", created == nil, got == nil), nil)
+			continue
+		}
 		res.Stats["hijack_create_get"]++
 		if got.APIVersion != "apps/v1" || created.APIVersion != "apps/v1" {
 			add(i, "typed-wrong", "hijack client returned "+got.APIVersion, nil)
@@ -400,6 +405,13 @@ func runC19(ctx *Ctx) *Result {
 			add(i, "hijack-update-failed", err.Error(), nil)
 			continue
 		}
+		if again == nil {
+			add(i, "nil-object-without-error", "a successful Update through the hijack client returned no object", nil)
+			continue
+		}
+		if got2, err := hc.AppsV1().StatefulSets("ns").Get(bg, "web", metav1.GetOptions{}); err == nil && got2 != nil && !apiequality.Semantic.DeepEqual(again, got2) {
+			add(i, "get-differs-from-update", jsonSubset(toGeneric(again), toGeneric(got2), "")+jsonSubset(toGeneric(got2), toGeneric(again), ""), nil)
+		}
 		storedAfter := srv.Get(simapi.Sets, "ns", "web").(*asv1.StatefulSet)
 		res.Stats["hijack_resubmits"]++
 		if !apiequality.Semantic.DeepEqual(storedBefore.Spec.Template, storedAfter.Spec.Template) || storedAfter.Generation != storedBefore.Generation {
@@ -417,6 +429,8 @@ func runC19(ctx *Ctx) *Result {
 			add(i, "hijack-create-failed", err.Error(), nil)
 		} else if l, err := hc.AppsV1().StatefulSets("ns").List(bg, metav1.ListOptions{}); err != nil {
 			add(i, "hijack-list-failed", err.Error(), nil)
+		} else if l == nil {
+			add(i, "nil-object-without-error", "a successful List through the hijack client returned no list", nil)
 		} else {
 			res.Stats["hijack_lists"]++
 			if len(l.Items) != 2 || l.Items[0].Name != "web" || l.Items[1].Name != "web2" {
@@ -440,6 +454,8 @@ func runC19(ctx *Ctx) *Result {
 		}
 		if pd, err := hc.AppsV1().StatefulSets("ns").Patch(bg, "web", types.MergePatchType, []byte(`{"metadata":{"labels":{"patched":"yes"}}}`), metav1.PatchOptions{}); err != nil {
 			add(i, "hijack-patch-failed", err.Error(), nil)
+		} else if pd == nil {
+			add(i, "nil-object-without-error", "a successful Patch through the hijack client returned no object", nil)
 		} else {
 			res.Stats["hijack_patches"]++
 			stored := srv.Get(simapi.Sets, "ns", "web").(*asv1.StatefulSet)
@@ -467,6 +483,8 @@ func runC19(ctx *Ctx) *Result {
 			got, err := hc.AppsV1().StatefulSets("ns").Apply(bg, ac, metav1.ApplyOptions{FieldManager: "verif"})
 			if err != nil {
 				add(i, "hijack-apply-failed", err.Error(), nil)
+			} else if got == nil {
+				add(i, "nil-object-without-error", "a successful Apply through the hijack client returned no object", nil)
 			} else {
 				res.Stats["hijack_applies"]++
 				okApply := got.APIVersion == "apps/v1" && got.Spec.Replicas != nil && *got.Spec.Replicas == rep && got.Spec.ServiceName == "svc" &&
@@ -485,14 +503,82 @@ func runC19(ctx *Ctx) *Result {
 		// status through UpdateStatus
 		st := again.DeepCopy()
 		st.Status = *x.Status.DeepCopy()
-		if _, err := hc.AppsV1().StatefulSets("ns").UpdateStatus(bg, st, metav1.UpdateOptions{}); err == nil {
+		if us, err := hc.AppsV1().StatefulSets("ns").UpdateStatus(bg, st, metav1.UpdateOptions{}); err == nil {
 			g2, _ := hc.AppsV1().StatefulSets("ns").Get(bg, "web", metav1.GetOptions{})
-			if g2 == nil || !apiequality.Semantic.DeepEqual(g2.Status, x.Status) {
-				add(i, "status-lost-through-hijack", jsonSubset(toGeneric(x.Status), toGeneric(g2.Status), "status"), nil)
+			if us == nil || g2 == nil {
+				add(i, "nil-object-without-error", "a successful UpdateStatus / Get through the hijack client returned no object", nil)
+			} else if !apiequality.Semantic.DeepEqual(g2.Status, x.Status) || !apiequality.Semantic.DeepEqual(us.Status, x.Status) {
+				add(i, "status-lost-through-hijack", jsonSubset(toGeneric(x.Status), toGeneric(g2.Status), "status")+jsonSubset(toGeneric(x.Status), toGeneric(us.Status), "status"), nil)
 			}
 			res.Stats["hijack_status_round_trips"]++
 		} else {
 			add(i, "hijack-updatestatus-failed", err.Error(), nil)
+		}
+		// errors of the underlying client come back as errors (same reason), never as a silent success: every verb
+		// once with its underlying call answered by a 500
+		if cur, _ := hc.AppsV1().StatefulSets("ns").Get(bg, "web", metav1.GetOptions{}); i%4 == 0 && cur != nil {
+			verbs := []struct {
+				name string
+				call func() (interface{}, error)
+			}{
+				{"Create", func() (interface{}, error) {
+					n := in.DeepCopy()
+					n.Name = "web3"
+					o, err := hc.AppsV1().StatefulSets("ns").Create(bg, n, metav1.CreateOptions{})
+					return o, err
+				}},
+				{"Update", func() (interface{}, error) {
+					o, err := hc.AppsV1().StatefulSets("ns").Update(bg, cur.DeepCopy(), metav1.UpdateOptions{})
+					return o, err
+				}},
+				{"UpdateStatus", func() (interface{}, error) {
+					o, err := hc.AppsV1().StatefulSets("ns").UpdateStatus(bg, cur.DeepCopy(), metav1.UpdateOptions{})
+					return o, err
+				}},
+				{"Get", func() (interface{}, error) {
+					o, err := hc.AppsV1().StatefulSets("ns").Get(bg, "web", metav1.GetOptions{})
+					return o, err
+				}},
+				{"List", func() (interface{}, error) {
+					o, err := hc.AppsV1().StatefulSets("ns").List(bg, metav1.ListOptions{})
+					return o, err
+				}},
+				{"Patch", func() (interface{}, error) {
+					o, err := hc.AppsV1().StatefulSets("ns").Patch(bg, "web", types.MergePatchType, []byte(`{"metadata":{"labels":{"p":"q"}}}`), metav1.PatchOptions{})
+					return o, err
+				}},
+				{"Apply", func() (interface{}, error) {
+					ac := appsapplyv1.StatefulSet("applied2", "ns").WithSpec(appsapplyv1.StatefulSetSpec().WithReplicas(1))
+					o, err := hc.AppsV1().StatefulSets("ns").Apply(bg, ac, metav1.ApplyOptions{FieldManager: "verif"})
+					return o, err
+				}},
+			}
+			for vi, v := range verbs {
+				srv.ClearFaults()
+				srv.BeginReconcile(5000 + vi)
+				srv.AddFault(&simapi.Fault{Nth: 1, Kind: "500", Mode: "before"})
+				var o interface{}
+				var err error
+				func() {
+					defer func() {
+						if p := recover(); p != nil {
+							err = nil
+							o = fmt.Sprintf("panic: %v", p)
+						}
+					}()
+					o, err = v.call()
+				}()
+				srv.EndReconcile()
+				srv.ClearFaults()
+				res.Stats["hijack_calls_with_failing_backend"]++
+				if ps, isPanic := o.(string); isPanic {
+					add(i, "error-not-passed-on", fmt.Sprintf("%s through the hijack client with a failing backend: %s", v.name, ps), nil)
+				} else if err == nil {
+					add(i, "error-not-passed-on", fmt.Sprintf("%s through the hijack client: the underlying call was answered with a 500 but the hijack client reported success", v.name), nil)
+				} else if !apierrors.IsInternalError(err) {
+					add(i, "error-not-passed-on", fmt.Sprintf("%s through the hijack client: the underlying 500 came back as %v", v.name, err), nil)
+				}
+			}
 		}
 		res.sample(2, map[string]interface{}{"case": i, "fuzzed_apps_v1_spec": toGeneric(x.Spec)})
 	}
@@ -605,5 +691,5 @@ func init() {
 		Rule:   "apps/v1 StatefulSets generated by gofuzz with apimachinery's meta fuzzer functions plus custom functions (Quantity, IntOrString, Time, nil vs empty collections, every optional pointer nil/non-nil, defaulted and undefaulted enums) over the whole modelled schema; per object: conversion round trip, defaulting idempotence, list conversion, Create/Get/Update/UpdateStatus through the real hijack client over simapi; plus the slot-set / pause-flag codecs over all subsets of int32 extremes x annotation maps (nil, empty, others) and 2000 random int32 sets; distinct = distinct generated spec",
 		Assume: []string{"the five apps/v1 fields the Advanced type does not model (derived by reflection at run time and recorded in the evidence) are zeroed before the comparison", "metadata of the object written through the hijack client is limited to name/namespace/labels/annotations (the API server owns the rest)"},
 		Cases:  scenarioCases(8000, 120000), Run: runC19,
-		Floors: []string{"round_trips", "defaulting_idempotence_checks", "hijack_create_get", "hijack_resubmits", "hijack_lists", "hijack_patches", "hijack_applies", "slot_codec_cases", "objects_with_empty_nonnil_collections"}})
+		Floors: []string{"round_trips", "defaulting_idempotence_checks", "hijack_create_get", "hijack_resubmits", "hijack_lists", "hijack_patches", "hijack_applies", "hijack_calls_with_failing_backend", "slot_codec_cases", "objects_with_empty_nonnil_collections"}})
 }
